@@ -905,10 +905,12 @@ def evaluate(case, native):
         return False, 'tour agrees with the reference'
     if kind == 'group_state':
         grp = case['group']
-        must_reject = grp is not None and any(grp in r['groups'] for r in case['routes'][1:])
+        others_ = case['routes'][:-1] if case.get('refresh') == 'insertion' else case['routes'][1:]
+        must_reject = grp is not None and any(grp in r['groups'] for r in others_)
         if native['rejected'] != must_reject:
-            return True, (f'a job of group {grp} offered to route 0 is {"rejected" if native["rejected"] else "accepted"} after the solution-level refresh while the other routes serve '
-                          f'{[r["groups"] for r in case["routes"][1:]]} (stale flags before the refresh: {native["stale_before"]})')
+            return True, (f'a job of group {grp} offered to route {len(case["routes"]) - 1 if case.get("refresh") == "insertion" else 0} is {"rejected" if native["rejected"] else "accepted"} after the '
+                          f'{"insertion callback" if case.get("refresh") == "insertion" else "solution-level refresh"} while the other routes serve {[r["groups"] for r in others_]} '
+                          f'(routes are {"shifts of one vehicle" if case.get("same_vehicle") else "different vehicles"}; stale flags before: {native["stale_before"]})')
         return False, 'the group rule agrees with the tours'
     if kind == 'ctx_from_solution':
         kinds = case['tours']
